@@ -4,7 +4,7 @@ CONSTANTS
   NC = 2
   OpsPer = 2
   Backends = {"consul", "etcd", "memberlist"}
-  Limit = 10
+  Limits = {10}
   MaxErr = 0
   Secondaries = {"none"}
   WithDelete = FALSE
